@@ -9,30 +9,37 @@ package types
 //@ spec func hcmp(an int, ah int, bn int, bh int) int = ite(an < bn, -1, ite(an > bn, 1, ite(ah < bh, -1, ite(ah > bh, 1, 0))))
 
 //@ contract (Height).Compare
+//@   pure
 //@   let o = dyn(other, Height)
 //@   ensures lex: isType(other, Height) ==> (result == hcmp(h.RevisionNumber, h.RevisionHeight, o.RevisionNumber, o.RevisionHeight))
 //@   ensures range: isType(other, Height) ==> (result == -1 || result == 0 || result == 1)
 
 //@ contract (Height).LT
+//@   pure
 //@   let o = dyn(other, Height)
 //@   ensures isType(other, Height) ==> (result == (hcmp(h.RevisionNumber, h.RevisionHeight, o.RevisionNumber, o.RevisionHeight) == -1))
 
 //@ contract (Height).IsZero
+//@   pure
 //@   ensures result == (h.RevisionNumber == 0 && h.RevisionHeight == 0)
 
 //@ contract (Height).LTE
+//@   pure
 //@   let o = dyn(other, Height)
 //@   ensures isType(other, Height) ==> (result == (hcmp(h.RevisionNumber, h.RevisionHeight, o.RevisionNumber, o.RevisionHeight) <= 0))
 
 //@ contract (Height).GT
+//@   pure
 //@   let o = dyn(other, Height)
 //@   ensures isType(other, Height) ==> (result == (hcmp(h.RevisionNumber, h.RevisionHeight, o.RevisionNumber, o.RevisionHeight) == 1))
 
 //@ contract (Height).GTE
+//@   pure
 //@   let o = dyn(other, Height)
 //@   ensures isType(other, Height) ==> (result == (hcmp(h.RevisionNumber, h.RevisionHeight, o.RevisionNumber, o.RevisionHeight) >= 0))
 
 //@ contract (Height).EQ
+//@   pure
 //@   let o = dyn(other, Height)
 //@   ensures isType(other, Height) ==> (result == (h.RevisionNumber == o.RevisionNumber && h.RevisionHeight == o.RevisionHeight))
 
@@ -57,3 +64,19 @@ package types
 //@   pure
 //@   ensures listed_only: result ==> (len(p.AllowedClients) == 1 && p.AllowedClients[0] == AllowAllClients) || (exists j int :: 0 <= j && j < len(p.AllowedClients) && p.AllowedClients[j] == clientType)
 //@   ensures not_blank: clientType == "" ==> !result
+
+// ---- client identifiers (C15)
+//@ import strconv strconv
+
+//@ contract FormatClientIdentifier
+//@   pure
+//@   ensures result == clientType + "-" + dec(sequence)
+
+//@ contract ParseClientIdentifier
+//@   pure
+//@   decfull
+//@   splittail
+//@   lemma format_has_dash: IsClientIDFormat(clientID) ==> contains(clientID, "-")
+//@   ensures roundtrip: forall t string, n int :: 0 <= n && n < 18446744073709551616 && clientID == t + "-" + dec(n) && clientID != exported.LocalhostClientID && IsClientIDFormat(clientID) && strings.TrimSpace(t) != "" ==> err == nil && result0 == t && result1 == n
+//@   ensures parsed_suffix: err == nil && clientID != exported.LocalhostClientID ==> clientID == result0 + "-" + substr(clientID, len(result0) + 1, len(clientID) - len(result0) - 1) && !contains(substr(clientID, len(result0) + 1, len(clientID) - len(result0) - 1), "-") && nth(strconv.ParseUint(substr(clientID, len(result0) + 1, len(clientID) - len(result0) - 1), 10, 64), 1) == nil && result1 == nth(strconv.ParseUint(substr(clientID, len(result0) + 1, len(clientID) - len(result0) - 1), 10, 64), 0)
+//@   ensures format: err == nil && clientID != exported.LocalhostClientID ==> IsClientIDFormat(clientID)
